@@ -650,6 +650,26 @@ def _ac_search(ctx, model):
            f"free variables -> {pvc}, everything else -> {nv}")
     # a plain variable is 'free' only if it is a declared candidate
     ok = f"{child}.nameinself.lhs_mapping_candidates" in split_src
+    if not ok:
+        # ... or through a predicate method of the unifier that itself tests
+        # membership of its argument in lhs_mapping_candidates
+        for k in model.mro(uu):
+            if not hasattr(k, "members"):
+                continue
+            for nm, hm in k.members.items():
+                if hm.kind != "func" or len(hm.node.args.args) != 2:
+                    continue
+                par = hm.node.args.args[1].arg
+                tests = any(
+                    isinstance(c_, ast.Compare) and len(c_.ops) == 1
+                    and isinstance(c_.ops[0], ast.In)
+                    and isinstance(c_.left, ast.Name) and c_.left.id == par
+                    and ast.unparse(c_.comparators[0]) ==
+                    "self.lhs_mapping_candidates"
+                    for r_ in ast.walk(hm.node) if isinstance(r_, ast.Return)
+                    and r_.value is not None for c_ in ast.walk(r_.value))
+                if tests and f"self.{nm}({child}.name)" in split_src:
+                    ok = True
     ctx.ob(f"{tag}/children-split/candidates-only", ok, loc(split),
            "only declared pattern variables are treated as free" if ok else
            "the split no longer tests membership in lhs_mapping_candidates")
